@@ -19,6 +19,33 @@ if TYPE_CHECKING:
 logger = logging.getLogger(__name__)
 
 
+def _active_reductions(resource) -> dict:
+    """Open ReduceCapacity windows on *resource* (token -> factor)."""
+    active = getattr(resource, "_capacity_reductions", None)
+    if active is None:
+        active = {}
+        resource._capacity_reductions = active
+    return active
+
+
+def _apply_capacity(resource) -> None:
+    """Set the capacity implied by the open windows, keeping held amounts intact.
+
+    The strongest open reduction applies; with no window open the configured
+    capacity is back.  ``available`` always equals ``capacity - held`` (it is
+    negative while more is held than the reduced capacity allows, so nothing
+    new is admitted until enough has been released), and waiters that fit
+    after a restore are woken.
+    """
+    active = resource._capacity_reductions
+    configured = resource._configured_capacity
+    new_capacity = configured * min(active.values()) if active else configured
+    in_use = resource._capacity - resource._available
+    resource._capacity = new_capacity
+    resource._available = new_capacity - in_use
+    resource._wake_waiters()
+
+
 @dataclass(frozen=True)
 class ReduceCapacity:
     """Temporarily reduce a resource's capacity.
@@ -42,32 +69,33 @@ class ReduceCapacity:
         resource = ctx.resources[self.resource_name]
         resource_name = self.resource_name
         factor = self.factor
-        original_capacity = resource._capacity
+        token = object()
 
         def activate(e: Event) -> None:
-            new_capacity = original_capacity * factor
-            resource._capacity - new_capacity
-            resource._capacity = new_capacity
-            # Clamp available to not exceed new capacity
-            if resource._available > new_capacity:
-                resource._available = new_capacity
+            active = _active_reductions(resource)
+            if not active:
+                # First open window: remember the configured capacity.
+                resource._configured_capacity = resource._capacity
+            active[token] = factor
+            _apply_capacity(resource)
             logger.info(
                 "[FaultInjection] Reduced '%s' capacity to %.1f (factor=%.2f) at %s",
                 resource_name,
-                new_capacity,
+                resource._capacity,
                 factor,
                 e.time,
             )
 
         def deactivate(e: Event) -> None:
-            capacity_increase = original_capacity - resource._capacity
-            resource._capacity = original_capacity
-            # Restore available by the same amount capacity increased
-            resource._available += capacity_increase
+            active = _active_reductions(resource)
+            if token not in active:
+                return
+            del active[token]
+            _apply_capacity(resource)
             logger.info(
                 "[FaultInjection] Restored '%s' capacity to %.1f at %s",
                 resource_name,
-                original_capacity,
+                resource._capacity,
                 e.time,
             )
 
